@@ -675,6 +675,7 @@ func runC16(c *Ctx) {
 	}
 	clauseLayerClosedOnlyByOwner(c, "C16.i")
 	clauseDetachWithChildren(c, "C16.j")
+	clauseStorePoolPremises(c, "C16.k")
 	c.assume("go-fuse serialises nothing: handlers may race; only the lock discipline of LayerManager is decided")
 }
 
